@@ -38,6 +38,25 @@ def gen_call_2d(rng, last=None):
     data = 'ok'
     if r < 0.06:
         return {'m': 'set_solver', 'v': rng.choice([1, 2, 3, 4, 0, 5])}
+    if r < 0.14:
+        m = rng.choice(['adaptive_minmax', 'collab_pls', 'individual_axes'])
+        if m == 'adaptive_minmax':
+            p = rng.choice([0, 1, 2, 3])
+            kw = {'method': rng.choice(['modpoly', 'imodpoly', 'poly']),
+                  'poly_order': p if rng.random() < 0.6 else [p, rng.choice([1, 2, 3])]}
+            w = rng.choice([None, 'ok'])
+        elif m == 'collab_pls':
+            im = rng.choice(['pspline_asls', 'pspline_arpls', 'asls'])
+            mk = {'max_iter': 4, 'lam': 10}
+            if im.startswith('pspline'):
+                k = rng.choice(K4_POOL)
+                mk.update(num_knots=[k[0], k[1]], spline_degree=[k[2], k[3]])
+            else:
+                mk.update(num_eigens=(5, 5), lam=1e2)
+            kw = {'method': im, 'method_kwargs': mk}
+        else:
+            kw = {'method': 'asls', 'method_kwargs': {'lam': 1e2, 'max_iter': 4}, 'axes': rng.choice([0, 1, (0, 1)])}
+        return {'m': m, 'kw': kw, 'data': 'ok', 'w': w}
     if r < 0.55:
         m = rng.choice(POLY2_PINV + ['poly', 'quant_reg'])
         px, pz = rng.choice([0, 1, 2, 2, 3]), rng.choice([0, 1, 2, 2, 3])
@@ -123,7 +142,7 @@ def item_2d(call, M, N, raised):
     from pybaselines import Baseline2D
     if call['m'] == 'set_solver':
         return f'ISolver2 {zl(call["v"])}'
-    m, kw, w = call['m'], call['kw'], call['w']
+    m, kw, w = call['m'], dict(call['kw']), call['w']
     sig = inspect.signature(getattr(Baseline2D, m)).parameters
 
     def val(name, fallback):
@@ -143,6 +162,31 @@ def item_2d(call, M, N, raised):
             'b_k := (%s, %s, %s, %s); b_dox := %s; b_doz := %s; b_pre_raise := %s; b_post_raise := %s |}'
             % (m, coq_optp(sh), coq_b(call['data'] != 'nan'), coq_optp(wl), zl(px), zl(pz), coq_opt(mc),
                zl(k1), zl(k2), zl(d1), zl(d2), zl(do1), zl(do2), coq_b(pre_raise_2d(call)), coq_b(raised)))
+
+
+OPTIMIZERS2 = {'adaptive_minmax', 'collab_pls', 'individual_axes'}
+
+
+def inner_calls_2d(call):
+    m, kw = call['m'], call['kw']
+    if m == 'adaptive_minmax':
+        po = kw['poly_order']
+        orders = list(po) if isinstance(po, (list, tuple)) else [po, po + 1]
+        return [(kw['method'], {'poly_order': o, 'max_cross': None}, 'ok') for o in orders for _ in range(2)]
+    if m == 'collab_pls':
+        mk = dict(kw.get('method_kwargs') or {})
+        return [(kw['method'], mk, None), (kw['method'], mk, 'ok'), (kw['method'], mk, 'ok')]
+    return []   # individual_axes fits on new 1-D Baseline objects
+
+
+def group_2d(call, M, N, raised):
+    if call['m'] not in OPTIMIZERS2:
+        return [item_2d(call, M, N, raised)]
+    inner = inner_calls_2d(call)
+    items = [item_2d(dict(call, kw={}), M, N, raised and not inner)]
+    for k, (im, ikw, iw) in enumerate(inner):
+        items.append(item_2d({'m': im, 'kw': ikw, 'w': iw, 'data': 'ok'}, M, N, raised and k == len(inner) - 1))
+    return items
 
 
 def make_data2(M, N, seed):
@@ -167,7 +211,9 @@ def call_args_2d(call, M, N, y):
         data[M // 2, N // 3] = np.nan
     kw = dict(SPEED2.get(call['m'], {}))
     kw.update(PLAIN2.get(call['m'], {}))
-    kw.update(call['kw'])
+    kw.update({k: (dict(v) if isinstance(v, dict) else v) for k, v in call['kw'].items()})
+    if call['m'] == 'collab_pls':
+        data = np.array([y, 1.1 * y + 1])
     sh = data_shape(call, M, N) or (M, N)
     if call['w'] == 'ok':
         kw['weights'] = np.linspace(0.5, 1.5, sh[0] * sh[1]).reshape(sh)
@@ -193,9 +239,18 @@ def observe_2d(f):
               1 if P.pinv_stale else 0, 1 if pi is None else 0, -1 if pi is None else int(pi.shape[0])]
     S = f._spline_basis
     if S is None:
-        o += [0, -1, -1, -1, -1]
+        o += [0, -1, -1, -1, -1, -1, -1, 1, -1, -1]
     else:
-        o += [1, int(S.num_knots[0]), int(S.num_knots[1]), int(S.spline_degree[0]), int(S.spline_degree[1])]
+        full = getattr(S, '_basis', None)
+        if full is None:
+            fo = [1, -1, -1]
+        else:
+            from scipy.sparse import kron
+            cur = kron(S.basis_r, S.basis_c)
+            same = full.shape == cur.shape and (full != cur).nnz == 0
+            fo = [0, int(full.shape[1]), 1 if same else 0]
+        o += [1, int(S.num_knots[0]), int(S.num_knots[1]), int(S.spline_degree[0]), int(S.spline_degree[1]),
+              int(S.basis_r.shape[1]), int(S.basis_c.shape[1])] + fo
     o += [int(f._banded_solver)]
     return o
 
@@ -225,6 +280,13 @@ def _invariant_2d(f):
         if ((S.basis_r != T.basis_r).nnz or (S.basis_c != T.basis_c).nnz
                 or not np.array_equal(S.knots_r, T.knots_r) or not np.array_equal(S.knots_c, T.knots_c)):
             return f'cached 2-D spline basis is not SplineBasis2D(x, z, {list(S.num_knots)}, {list(S.spline_degree)})'
+        full = getattr(S, '_basis', None)
+        if full is not None:
+            from scipy.sparse import kron
+            want = kron(T.basis_r, T.basis_c)
+            if full.shape != want.shape or (full != want).nnz:
+                return ('the lazily created full basis (_basis) is not kron(basis_r, basis_c) for '
+                        f'{list(S.num_knots)}, {list(S.spline_degree)}')
     return None
 
 
@@ -285,12 +347,32 @@ def gen_history_2d(rng, nmax=10):
     xk = rng.choice(['none', 'none', 'x', 'z', 'both', 'both', 'unsorted'])
     last = {}
     calls = [gen_call_2d(rng, last) for _ in range(rng.randint(1, nmax))]
+    if rng.random() < 0.3:
+        # two pspline_iasls calls (the only reader of the lazy full basis) whose keys differ on exactly ONE axis,
+        # keeping or changing that axis' number of basis functions, possibly with another call in between
+        k = list(rng.choice(K4_POOL))
+        k2 = list(k)
+        ax = rng.choice([0, 1])
+        t = rng.random()
+        if t < 0.4 and k[2 + ax] >= 1:
+            k2[ax], k2[2 + ax] = k[ax] + 1, k[2 + ax] - 1        # same number of basis functions
+        elif t < 0.7:
+            k2[ax] = k[ax] + 1
+        else:
+            k2[2 + ax] = k[2 + ax] + 1
+        mk = lambda kk: {'m': 'pspline_iasls', 'kw': {'diff_order': 2, 'num_knots': [kk[0], kk[1]],  # noqa: E731
+                                                     'spline_degree': [kk[2], kk[3]]}, 'data': 'ok', 'w': None}
+        seq = [mk(k)] + ([gen_call_2d(rng, last)] if rng.random() < 0.4 else []) + [mk(k2)]
+        if rng.random() < 0.3:
+            seq.append(mk(k))
+        pos = rng.randint(0, len(calls))
+        calls = calls[:pos] + seq + calls[pos:]
     return {'dim': 2, 'M': M, 'N': N, 'x': xk, 'seed': rng.randrange(10 ** 6), 'calls': calls}
 
 
 def nontrivial_2d(h):
     ps = [(tuple(pair(c['kw']['poly_order'])), c['kw'].get('max_cross')) for c in h['calls']
-          if c.get('kw') and 'poly_order' in c['kw']]
+          if c.get('kw') and 'poly_order' in c['kw'] and c['m'] not in OPTIMIZERS2]
     ks = [(tuple(c['kw']['num_knots']), tuple(c['kw']['spline_degree'])) for c in h['calls']
           if c.get('kw') and 'num_knots' in c['kw']]
     return len(set(ps)) > 1 or len(set(ks)) > 1
@@ -299,7 +381,7 @@ def nontrivial_2d(h):
 def history_literal_2d(h, recs):
     from .c03 import unpredicted_ok
     M, N = h['M'], h['N']
-    ops = [item_2d(c, M, N, unpredicted_ok(c, r)) for c, r in zip(h['calls'], recs)]
+    ops = ['[' + '; '.join(group_2d(c, M, N, unpredicted_ok(c, r))) + ']' for c, r in zip(h['calls'], recs)]
     exp = '[' + '; '.join('[' + '; '.join(zl(v) for v in rec[0]) + ']' for rec in recs) + ']'
     x0 = 'None' if h['x'] in ('none', 'z') else f'(Some {M})'
     z0 = 'None' if h['x'] in ('none', 'x') else f'(Some {N})'
